@@ -147,6 +147,31 @@ func (h *NtfnsHandler) Start() error {
 		}
 	}
 
+	if syncHeight >= indexHeight {
+		// Nothing to catch up by height, but the stored tip may have been replaced by a block
+		// of the same or a lower height while the wallet was down: let the node's best block
+		// go through the reorganisation logic.
+		blk, err := h.walletMgr.chainFetcher.FetchBlockByHeight(indexHeight)
+		if err != nil {
+			logging.CPrint(logging.ERROR, "NtfnsHandler.Start(): FetchBlockByHeight error",
+				logging.LogFormat{
+					"height": indexHeight,
+					"err":    err,
+				})
+			return err
+		}
+		if blk != nil && blk.BlockHash() != h.bestBlock.Hash {
+			if err = h.processConnectedBlock(blk); err != nil {
+				logging.CPrint(logging.ERROR, "NtfnsHandler.Start(): processConnectedBlock error",
+					logging.LogFormat{
+						"height": indexHeight,
+						"err":    err,
+					})
+				return err
+			}
+		}
+	}
+
 	h.initTaskChan()
 	h.quitWg.Add(2)
 	go handle(h)
